@@ -11,8 +11,11 @@ import (
 	"context"
 	"encoding/json"
 	"errors"
+	"fmt"
 	"os"
 	"path/filepath"
+	"sync/atomic"
+	"time"
 
 	"github.com/spf13/afero"
 	"github.com/yandex/pandora/cli"
@@ -32,11 +35,48 @@ type counting struct {
 	dir        string
 }
 
+// Report calls that have returned, process wide (also read by the failing provider below)
+var returnedTotal int64
+
 func (c *counting) Report(s core.Sample) {
 	c.enter.Write(one)
 	c.Aggregator.Report(s)
 	c.ret.Write(one)
+	atomic.AddInt64(&returnedTotal, 1)
 }
+
+// "vfail": an ammo provider whose Run fails `after` into the run (C05 plan prov-mid-run, at process level): the
+// pool fails on its own, Engine.Run returns the error and the CLI enters "Engine run failed. Awaiting started
+// tasks." while the OTHER pools' aggregators still drain and flush.  Right before it fails it records how many
+// Report calls had returned - all of them were made before the exit path began.
+type failConf struct {
+	After time.Duration `config:"after"`
+}
+
+type failProvider struct{ after time.Duration }
+
+func (p *failProvider) Run(ctx context.Context, _ core.ProviderDeps) error {
+	select {
+	case <-time.After(p.after):
+		n := atomic.LoadInt64(&returnedTotal)
+		dir := os.Getenv("VPANDORA_DIR")
+		if dir == "" {
+			dir = "."
+		}
+		os.WriteFile(filepath.Join(dir, "fail.json"), []byte(fmt.Sprintf("{\"returned_before\": %d}\n", n)), 0644)
+		return errors.New("ammo source broke mid-run")
+	case <-ctx.Done():
+		return nil
+	}
+}
+func (p *failProvider) Acquire() (core.Ammo, bool) { return struct{}{}, true }
+func (p *failProvider) Release(core.Ammo)          {}
+
+// "vnop": a gun that shoots nothing and reports nothing
+type nopGun struct{}
+
+func (nopGun) Bind(core.Aggregator, core.GunDeps) error { return nil }
+func (nopGun) Shoot(core.Ammo)                          {}
 
 func (c *counting) Run(ctx context.Context, deps core.AggregatorDeps) error {
 	err := c.Aggregator.Run(ctx, deps)
@@ -111,6 +151,10 @@ func main() {
 	register.Aggregator("vjsonlines", func(conf aggregator.JSONLineAggregatorConfig) core.Aggregator {
 		return wrap(viewAdapter{aggregator.NewJSONLinesAggregator(conf)})
 	}, aggregator.DefaultJSONLinesAggregatorConfig)
+
+	register.Provider("vfail", func(conf failConf) core.Provider { return &failProvider{conf.After} },
+		func() failConf { return failConf{After: 300 * time.Millisecond} })
+	register.Gun("vnop", func() core.Gun { return nopGun{} })
 
 	cli.Run()
 }
